@@ -602,7 +602,9 @@ var methodPool = []string{"GET", "GET", "GET", "POST", "PUT", "DELETE", "OPTIONS
 var markerPool = []string{"<script>verif-marker</script>", "\"><img src=x onerror=verif-marker>", "'verif-marker'", "a&b<verif-marker>", "</p><p verif-marker>", "plain text",
 	// characters that need escaping in JSON but not in HTML: C0 controls, DEL, line separators, a non-printable rune outside the BMP,
 	// backslashes and quotes, bytes that are not UTF-8
-	"bell\averif-marker\x00nul", "vt\vesc\x1bdel\x7f<verif-marker>", "ls\u2028ps\u2029verif-marker", "tag\U000e0001verif-marker", "back\\slash\"quote'verif-marker", "bad\xffutf8\xc3(verif-marker"}
+	"bell\averif-marker\x00nul", "vt\vesc\x1bdel\x7f<verif-marker>", "ls\u2028ps\u2029verif-marker", "tag\U000e0001verif-marker", "back\\slash\"quote'verif-marker", "bad\xffutf8\xc3(verif-marker",
+	// values that already contain character references (as if pre-encoded) next to live markup
+	"Terms &amp; conditions <script>verif-marker</script>", "it&#39;s \"><img src=x onerror=verif-marker>", "&lt;b&gt; then <b verif-marker>", "&quot;&#x3c;\"'<verif-marker>", "&nbsp;&bogus;<verif-marker>"}
 
 func (w *world) randomReqSpec(rng *mrand.Rand, prop string) reqSpec {
 	rs := reqSpec{}
